@@ -6,12 +6,14 @@ numeral `[-]ip[.fp]` (plain ASCII digits) is the double nearest to
 `digits / 10^|fp|` (`pyFloat_fixed`), and the digits `fmtF` prints are those of
 `⌊x·10^d⌉` (`fmtF_shape`).
 -/
+set_option exponentiation.threshold 3000
+
 namespace Proofs.FloatText
-open Cfi Cfi.Text Cfi.PyInt Cfi.Dbl
+open Cfi Cfi.Text Cfi.PyInt Cfi.Dbl Proofs.Nearest
 
 theorem digitVal_dot : digitVal '.' = none := by decide
 
-def val (c : Char) : Nat := c.toNat - 48
+abbrev val (c : Char) : Nat := c.toNat - 48
 
 theorem digitsGo_rest (acc : List Nat) (r rest : List Char) (h : ∀ c ∈ r, c.isDigit = true)
     (hrest : rest = [] ∨ ∃ t, rest = '.' :: t) :
@@ -41,21 +43,6 @@ theorem digitsUS_rest (r rest : List Char) (hne : r ≠ []) (h : ∀ c ∈ r, c.
 
 theorem digitsUS_dot (t : List Char) : digitsUS ('.' :: t) = none := by
   simp [digitsUS, digitVal_dot]
-
-/-- the value `float()` gives to the digit sequence `all` with `nf` of them after the point -/
-def fixedValue (neg : Bool) (all : List Nat) (nf : Nat) : Option Dbl :=
-  let ds := all.dropWhile (· == 0)
-  if ds.isEmpty then some (.fin neg 0 (-1074)) else
-  let n := ofDigits ds
-  let e10 : Int := 0 - nf
-  let adj : Int := e10 + ds.length
-  if adj > 400 then some (.inf neg)
-  else if adj < -400 then some (.fin neg 0 (-1074))
-  else
-    let r := if e10 ≥ 0 then nearest (n * 10 ^ e10.toNat) 1 else nearest n (10 ^ (-e10).toNat)
-    match r with
-    | some (m, e) => some (.fin neg m e)
-    | none => some (.inf neg)
 
 theorem lower_digit {c : Char} (h : c.isDigit = true) : lower c = c := by
   have := (isDigit_iff c).1 h
@@ -89,5 +76,309 @@ theorem sign_body (neg : Bool) (ip fp : List Char) (hne : ip ≠ []) (hd : ∀ c
     · simp only [body, Bool.false_eq_true, if_false, List.nil_append, List.cons_append]
       exact sign_digits c _ (hd c (by simp))
     · simp [body, sign]
+
+theorem isNumWs_dot : isNumWs '.' = false := by decide
+
+theorem body_notws (neg : Bool) (ip fp : List Char) (hd : ∀ c ∈ ip ++ fp, c.isDigit = true) :
+    ∀ x ∈ body neg ip fp, isNumWs x = false := by
+  intro x hx
+  unfold body at hx
+  simp only [List.mem_append] at hx
+  rcases hx with hx | hx | hx
+  · cases neg
+    · simp at hx
+    · simp at hx; subst hx; exact isNumWs_minus
+  · exact isNumWs_digit (hd x (by simp [hx]))
+  · by_cases hf : fp.isEmpty = true
+    · simp [hf] at hx
+    · simp only [hf, Bool.false_eq_true, if_false, List.mem_cons] at hx
+      rcases hx with rfl | hx
+      · exact isNumWs_dot
+      · exact isNumWs_digit (hd x (by simp [hx]))
+
+theorem strip_body (k : Nat) (neg : Bool) (ip fp : List Char) (hd : ∀ c ∈ ip ++ fp, c.isDigit = true) :
+    stripBy isNumWs (List.replicate k ' ' ++ body neg ip fp) = body neg ip fp := by
+  apply stripBy_pad_left k ' ' _ isNumWs_blank
+  · intro x hx
+    exact body_notws neg ip fp hd x (List.mem_of_mem_head? hx)
+  · intro x hx
+    exact body_notws neg ip fp hd x (List.mem_of_getLast? hx)
+
+theorem not_special (c : Char) (r : List Char) (h : c.isDigit = true) :
+    (((c :: r).map lower == "inf".toList) || ((c :: r).map lower == "infinity".toList)) = false ∧
+    ((c :: r).map lower == "nan".toList) = false := by
+  have hl := lower_digit h
+  have hc := (isDigit_iff c).1 h
+  have h1 : c ≠ 'i' := by intro e; subst e; simp at hc
+  have h2 : c ≠ 'n' := by intro e; subst e; simp at hc
+  simp [hl, h1, h2]
+
+/-- **`float()` of a fixed-point numeral**: blanks, an optional minus, a non-empty run of ASCII
+digits, optionally a point and more ASCII digits -/
+theorem pyFloat_fixed (k : Nat) (neg : Bool) (ip fp : List Char) (hne : ip ≠ [])
+    (hd : ∀ c ∈ ip ++ fp, c.isDigit = true) :
+    pyFloat (List.replicate k ' ' ++ body neg ip fp) = some (ofDecimal neg ((ip ++ fp).map val) fp.length 0) := by
+  have hdi : ∀ c ∈ ip, c.isDigit = true := fun c hc => hd c (by simp [hc])
+  have hdf : ∀ c ∈ fp, c.isDigit = true := fun c hc => hd c (by simp [hc])
+  unfold pyFloat
+  simp only [strip_body k neg ip fp hd, sign_body neg ip fp hne hdi]
+  obtain ⟨c, r, rfl⟩ := List.exists_cons_of_ne_nil hne
+  have hsp := not_special c (r ++ (if fp.isEmpty then [] else '.' :: fp)) (hdi c (by simp))
+  simp only [List.cons_append] at hsp ⊢
+  simp only [hsp.1, hsp.2, Bool.false_eq_true, if_false]
+  by_cases hf : fp = []
+  · subst hf
+    have h4 := digitsUS_rest (c :: r) [] (by simp) hdi (Or.inl rfl)
+    simp only [List.append_nil, List.cons_append] at h4
+    simp only [List.isEmpty_nil, if_true, List.append_nil, h4]
+    simp
+  · have hfe : fp.isEmpty = false := by simpa using hf
+    have h4 := digitsUS_rest (c :: r) ('.' :: fp) (by simp) hdi (Or.inr ⟨fp, rfl⟩)
+    have h5 := digitsUS_rest fp [] hf hdf (Or.inl rfl)
+    simp only [List.append_nil, List.cons_append] at h4 h5
+    simp only [hfe, Bool.false_eq_true, if_false, h4, h5]
+    simp
+
+/-! ### the digits `fmtF` prints -/
+
+/-- the digit string of `fmtF`: `str(n)` padded with zeros to at least `d + 1` digits -/
+def fdigits (n d : Nat) : List Char :=
+  if (natDigits n).length ≤ d then zeros (d + 1 - (natDigits n).length) ++ natDigits n else natDigits n
+
+theorem fdigits_eq (n d : Nat) : ∃ k, fdigits n d = List.replicate k '0' ++ natDigits n ∧
+    d + 1 ≤ k + (natDigits n).length := by
+  unfold fdigits zeros
+  split
+  · exact ⟨_, rfl, by omega⟩
+  · exact ⟨0, by simp, by omega⟩
+
+theorem fdigits_isDigit (n d : Nat) : ∀ c ∈ fdigits n d, c.isDigit = true := by
+  obtain ⟨k, hk, _⟩ := fdigits_eq n d
+  intro c hc
+  rw [hk, List.mem_append] at hc
+  rcases hc with hc | hc
+  · rw [List.mem_replicate] at hc; rw [hc.2]; decide
+  · exact natDigits_isDigit n c hc
+
+theorem fdigits_length (n d : Nat) : d + 1 ≤ (fdigits n d).length := by
+  obtain ⟨k, hk, h⟩ := fdigits_eq n d
+  rw [hk]; simp; omega
+
+theorem foldl_zeros (k : Nat) : (List.replicate k 0).foldl (fun a d => 10 * a + d) 0 = 0 := by
+  induction k with
+  | zero => rfl
+  | succ k ih => simp [List.replicate_succ, ih]
+
+theorem dropWhile_zeros (k : Nat) (l : List Nat) :
+    (List.replicate k 0 ++ l).dropWhile (· == 0) = l.dropWhile (· == 0) := by
+  induction k with
+  | zero => simp
+  | succ k ih => simp [List.replicate_succ, ih]
+
+theorem ofDigits_dropWhile (l : List Nat) : ofDigits (l.dropWhile (· == 0)) = ofDigits l := by
+  induction l with
+  | nil => rfl
+  | cons a l ih =>
+    by_cases ha : a = 0
+    · subst ha
+      simp only [List.dropWhile_cons, beq_self_eq_true, if_true, ih]
+      simp [ofDigits]
+    · simp [ha]
+
+theorem foldl_ge (l : List Nat) (acc : Nat) : acc ≤ l.foldl (fun a d => 10 * a + d) acc := by
+  induction l generalizing acc with
+  | nil => exact Nat.le_refl _
+  | cons d l ih => exact Nat.le_trans (by omega) (ih (10 * acc + d))
+
+theorem dropWhile_empty_iff (l : List Nat) : (l.dropWhile (· == 0)).isEmpty = true ↔ ofDigits l = 0 := by
+  induction l with
+  | nil => simp [ofDigits]
+  | cons a l ih =>
+    by_cases ha : a = 0
+    · subst ha
+      simp only [List.dropWhile_cons, beq_self_eq_true, if_true, ih]
+      simp [ofDigits]
+    · simp only [List.dropWhile_cons, beq_iff_eq, ha, if_false, List.isEmpty_cons, Bool.false_eq_true, false_iff]
+      have := foldl_ge l (10 * 0 + a)
+      simp only [ofDigits, List.foldl_cons]
+      omega
+
+theorem ofDigits_natDigits (n : Nat) : ofDigits ((natDigits n).map val) = n := by
+  rw [ofDigits_map]
+  exact Nat.ofDigitChars_ten_toDigits
+
+theorem map_val_fdigits (n d : Nat) : ∃ k, (fdigits n d).map val = List.replicate k 0 ++ (natDigits n).map val := by
+  obtain ⟨k, hk, _⟩ := fdigits_eq n d
+  refine ⟨k, ?_⟩
+  rw [hk, List.map_append, List.map_replicate]
+  rfl
+
+/-- **`float()` of the digits `fmtF` prints**, `d` of them after the point, is the double
+nearest to `n/10^d` — the very call `round(x, d)` makes -/
+theorem ofDecimal_fdigits (neg : Bool) (n d : Nat) (hn : n < 10 ^ (d + 400)) (hd : d ≤ 400) :
+    (∀ m e, nearest n (10 ^ d) = some (m, e) → ofDecimal neg ((fdigits n d).map val) d 0 = .fin neg m e) ∧
+    (nearest n (10 ^ d) = none → ofDecimal neg ((fdigits n d).map val) d 0 = .inf neg) := by
+  obtain ⟨k, hk⟩ := map_val_fdigits n d
+  unfold ofDecimal
+  simp only [hk, dropWhile_zeros]
+  by_cases h0 : n = 0
+  · subst h0
+    have : ((natDigits 0).map val).dropWhile (· == 0) = [] := by decide
+    simp [this, nearest, nearestG]
+  · have hne : ((List.map val (natDigits n)).dropWhile (· == 0)).isEmpty = false := by
+      cases h : ((List.map val (natDigits n)).dropWhile (· == 0)).isEmpty with
+      | false => rfl
+      | true =>
+        have := (dropWhile_empty_iff _).1 h
+        rw [ofDigits_natDigits] at this
+        exact absurd this h0
+    have hlen : ((List.map val (natDigits n)).dropWhile (· == 0)).length ≤ d + 400 := by
+      have h1 : ((List.map val (natDigits n)).dropWhile (· == 0)).length ≤ (List.map val (natDigits n)).length :=
+        (List.dropWhile_sublist _).length_le
+      have h2 : (natDigits n).length ≤ d + 400 :=
+        (Nat.length_toDigits_le_iff (b := 10) (by omega) (by omega)).2 hn
+      simp only [List.length_map] at h1
+      omega
+    have hpos : 0 < ((List.map val (natDigits n)).dropWhile (· == 0)).length := by
+      cases h : (List.map val (natDigits n)).dropWhile (· == 0) with
+      | nil => simp [h] at hne
+      | cons a l => simp
+    simp only [hne, Bool.false_eq_true, if_false, ofDigits_dropWhile, ofDigits_natDigits]
+    have a1 : ¬ ((0 : Int) - (d : Int) + (((List.map val (natDigits n)).dropWhile (· == 0)).length : Int) > 400) := by omega
+    have a2 : ¬ ((0 : Int) - (d : Int) + (((List.map val (natDigits n)).dropWhile (· == 0)).length : Int) < -400) := by omega
+    simp only [a1, a2, if_false]
+    by_cases hd0 : d = 0
+    · subst hd0
+      simp only [Nat.pow_zero]
+      refine ⟨fun m e h => ?_, fun h => ?_⟩ <;> simp [h]
+    · have : ¬ ((0 : Int) - (d : Int) ≥ 0) := by omega
+      have e1 : (-((0 : Int) - (d : Int))).toNat = d := by omega
+      simp only [this, if_false, e1]
+      refine ⟨fun m e h => ?_, fun h => ?_⟩ <;> simp [h]
+
+/-- integer and fraction digits of `fmtF` -/
+def fip (n d : Nat) : List Char := (fdigits n d).take ((fdigits n d).length - d)
+def ffp (n d : Nat) : List Char := (fdigits n d).drop ((fdigits n d).length - d)
+
+theorem fip_ffp (n d : Nat) : fip n d ++ ffp n d = fdigits n d := List.take_append_drop _ _
+
+theorem ffp_length (n d : Nat) : (ffp n d).length = d := by
+  have := fdigits_length n d
+  simp only [ffp, List.length_drop]; omega
+
+theorem fip_ne (n d : Nat) : fip n d ≠ [] := by
+  have := fdigits_length n d
+  intro h
+  have : (fip n d).length = 0 := by rw [h]; rfl
+  simp only [fip, List.length_take] at this
+  omega
+
+/-- `'{:.{d}f}'.format(x)` is `[-]ip[.fp]` with the digits of `⌊|x|·10^d⌉` -/
+theorem fmtF_fin (neg : Bool) (m : Nat) (e : Int) (d : Nat) (upper : Bool) :
+    fmtF (.fin neg m e) d upper = body neg (fip (roundScaled m e d) d) (ffp (roundScaled m e d) d) := by
+  have hl := ffp_length (roundScaled m e d) d
+  unfold fmtF body
+  simp only []
+  rw [List.append_assoc]
+  congr 2
+  by_cases hd : d = 0
+  · subst hd
+    have h0 := List.eq_nil_of_length_eq_zero hl
+    simp
+    simpa using h0
+  · have : (ffp (roundScaled m e d) d).isEmpty = false := by
+      cases h : (ffp (roundScaled m e d) d).isEmpty with
+      | false => rfl
+      | true => rw [List.isEmpty_iff_length_eq_zero, hl] at h; exact absurd h hd
+    have hpos : d > 0 := Nat.pos_of_ne_zero hd
+    simp only [this, hpos, if_true, Bool.false_eq_true, if_false]
+    rfl
+
+/-! ### `float('{:.{d}f}'.format(round(x, d))) == round(x, d)` -/
+
+/-- a well-formed finite double: what `ofBits` produces -/
+def wf (m : Nat) (e : Int) : Prop := m < 2 ^ 53 ∧ -1074 ≤ e ∧ e ≤ 971
+
+/-- abstract form of the size bound: `n·b` within half a `b` of `X·T`, `X < C·b`, gives `n ≤ C·T` -/
+theorem round_bound (n b T C X : Nat) (hb : 0 < b) (hX : X < C * b)
+    (h : 2 * (n * b) ≤ 2 * (X * T) + b) : n ≤ C * T := by
+  apply Nat.le_of_not_lt
+  intro hlt
+  have h1 : (C * T + 1) * b ≤ n * b := Nat.mul_le_mul_right b hlt
+  have h2 : (X + 1) * T ≤ C * b * T := Nat.mul_le_mul_right T hX
+  have e1 : (C * T + 1) * b = C * b * T + b := by grind
+  have e2 : (X + 1) * T = X * T + T := by grind
+  omega
+
+theorem two_1024_lt : (2 : Nat) ^ 1024 < 10 ^ 400 := by decide
+
+theorem roundScaled_lt (m : Nat) (e : Int) (d : Nat) (h : wf m e) :
+    roundScaled m e d < 10 ^ (d + 400) := by
+  obtain ⟨hm, he1, he2⟩ := h
+  have r1 := roundScaled_units m e d (-1074) he1 (by decide)
+  have z1 : (-(d : Int)).toNat = 0 := by omega
+  have z2 : ((d : Int)).toNat = d := by omega
+  rw [z1, z2] at r1
+  simp only [Nat.pow_zero, Nat.mul_one] at r1
+  obtain ⟨_, s2, _⟩ := divHE_spec (Proofs.Nearest.units (-1074) m e * 10 ^ d) (2 ^ (-(-1074 : Int)).toNat)
+    (Proofs.Nearest.two_pow_pos _)
+  rw [← r1] at s2
+  -- units < 2^1024 · 2^1074
+  have hX : Proofs.Nearest.units (-1074) m e < 2 ^ 1024 * 2 ^ (-(-1074 : Int)).toNat := by
+    unfold Proofs.Nearest.units
+    have e1 : (e - (-1074)).toNat ≤ 971 + 1074 := by omega
+    calc m * 2 ^ (e - (-1074)).toNat < 2 ^ 53 * 2 ^ (e - (-1074)).toNat :=
+          Nat.mul_lt_mul_of_pos_right hm (Proofs.Nearest.two_pow_pos _)
+      _ ≤ 2 ^ 53 * 2 ^ (971 + 1074) := Nat.mul_le_mul_left _ (Nat.pow_le_pow_right (by decide) e1)
+      _ = 2 ^ 1024 * 2 ^ (-(-1074 : Int)).toNat := by
+          have eU : (-(-1074 : Int)).toNat = 1074 := by decide
+          rw [eU, ← Nat.pow_add]
+  have hb := round_bound _ _ _ _ _ (Proofs.Nearest.two_pow_pos _) hX s2
+  have hC := two_1024_lt
+  calc roundScaled m e d ≤ 2 ^ 1024 * 10 ^ d := hb
+    _ < 10 ^ 400 * 10 ^ d := Nat.mul_lt_mul_of_pos_right hC (Proofs.Nearest.ten_pow_pos d)
+    _ = 10 ^ (d + 400) := by rw [← Nat.pow_add, Nat.add_comm]
+
+/-- what `round(x, d)` is for a finite double and `0 ≤ d ≤ 323` -/
+theorem pyRound_fin (neg : Bool) (m : Nat) (e : Int) (d : Nat) (hd : d ≤ 323) (r : Dbl)
+    (h : pyRound (.fin neg m e) d = some r) :
+    ∃ m' e', nearest (roundScaled m e d) (10 ^ d) = some (m', e') ∧ r = .fin neg m' e' := by
+  unfold pyRound at h
+  have a1 : ¬ ((d : Int) > 323) := by omega
+  have a2 : ¬ ((d : Int) < -308) := by omega
+  have a3 : (d : Int) ≥ 0 := by omega
+  have z2 : ((d : Int)).toNat = d := by omega
+  simp only [a1, a2, a3, if_true, if_false, z2] at h
+  cases hn : nearest (roundScaled m e d) (10 ^ d) with
+  | none => simp [hn] at h
+  | some me =>
+    obtain ⟨m', e'⟩ := me
+    simp only [hn, Option.some.injEq] at h
+    exact ⟨m', e', rfl, h.symm⟩
+
+/-- **The text of a rounded double reads back as that double, and rounding it again changes
+nothing.**  `r = round(x, d)` for a finite double `x`: then, whatever blanks precede it,
+`float('{:.{d}f}'.format(r)) = r`, `round(r, d) = r`, and the digits printed are those of
+`⌊|x|·10^d⌉`. -/
+theorem float_fmtF_round (neg : Bool) (m : Nat) (e : Int) (d : Nat) (hwf : wf m e) (hd : d ≤ 323)
+    (r : Dbl) (h : pyRound (.fin neg m e) d = some r) (k : Nat) (upper : Bool) :
+    pyFloat (List.replicate k ' ' ++ fmtF r d upper) = some r ∧ pyRound r d = some r ∧
+    fmtF r d upper = body neg (fip (roundScaled m e d) d) (ffp (roundScaled m e d) d) := by
+  obtain ⟨m', e', hn, rfl⟩ := pyRound_fin neg m e d hd r h
+  obtain ⟨he', hfix⟩ := round_fixed m e d m' e' hwf.1 hwf.2.1 hn
+  have hfmt := fmtF_fin neg m' e' d upper
+  rw [hfix] at hfmt
+  have hdig : ∀ c ∈ fip (roundScaled m e d) d ++ ffp (roundScaled m e d) d, c.isDigit = true := by
+    rw [fip_ffp]; exact fdigits_isDigit _ _
+  refine ⟨?_, ?_, hfmt⟩
+  · rw [hfmt, pyFloat_fixed k neg _ _ (fip_ne _ _) hdig, fip_ffp, ffp_length]
+    have := (ofDecimal_fdigits neg (roundScaled m e d) d (roundScaled_lt m e d hwf) (by omega)).1 m' e' hn
+    rw [this]
+  · unfold pyRound
+    have a1 : ¬ ((d : Int) > 323) := by omega
+    have a2 : ¬ ((d : Int) < -308) := by omega
+    have a3 : (d : Int) ≥ 0 := by omega
+    have z2 : ((d : Int)).toNat = d := by omega
+    simp only [a1, a2, a3, if_true, if_false, z2, hfix, hn]
 
 end Proofs.FloatText
